@@ -1,3 +1,5 @@
+//go:build verif
+
 package checks
 
 // C15 — catalogue of hostile protocol messages: (phase, code, class) -> concrete message.
